@@ -278,9 +278,12 @@ Proof. vm_compute. repeat split. Qed.
 
 (* Round 3 (wave 7).  Functions with several results (coq/C03/ResPass.v): the register each result is put into by the
    interpreter's C-call shim (_MIR_get_interp_shim), fetched from by the interpreter's call stub (_MIR_get_ff_call) and
-   used by generated code (machinize_call / ret) is the same for EVERY list of result types ... *)
-Theorem result_walkers_agree : forall ts, res_shim_walk ts = res_ff_walk ts /\ res_ff_walk ts = res_gen_walk ts.
-Proof. intros ts. split; [exact (shim_ff_agree ts)|exact (ff_gen_agree ts)]. Qed.
+   used by generated code (machinize_call / ret): the shim and generated code agree for EVERY list of result types,
+   and whatever list the call stub accepts (it has no fall-through to the integer registers) all three place alike ... *)
+Theorem result_walkers_agree : forall ts,
+  res_shim_walk ts = res_gen_walk ts /\
+  (forall ls, res_ff_walk ts = Some ls -> res_shim_walk ts = Some ls /\ res_gen_walk ts = Some ls).
+Proof. exact result_agreement. Qed.
 Print Assumptions result_walkers_agree.
 
 (* ... and for every list with at most two results per register class it is the k-th return register of the result's
